@@ -3,7 +3,7 @@
 # Confirms a sub-agent's seeded change in a scratch worktree of the PINNED commit:
 # applies, full test suite green, demo FAILS; reverted, demo PASSES. Then stores it under
 # /verif/seeded/<name>/ (patch.diff, demo.py, meta.json with what was run).
-SRC="$1"; I="$2"; NAME="$3"; PIN=bc9989c
+SRC="$1"; I="$2"; NAME="$3"; PIN="${PIN:-bc9989c}"   # PIN=HEAD for seeds made against the current tree
 WT=/tmp/confirmwt_$$
 git -C /repo worktree add -q --detach "$WT" $PIN || exit 3
 trap 'git -C /repo worktree remove --force "$WT" >/dev/null 2>&1' EXIT
@@ -17,14 +17,14 @@ echo "$NAME: tests: $T | demo with patch exit=$RC_WITH | demo without exit=$RC_W
 if echo "$T" | grep -q "153 passed" && [ $RC_WITH -ne 0 ] && [ $RC_WITHOUT -eq 0 ]; then
     mkdir -p /verif/seeded/$NAME
     [ -f /verif/seeded/$NAME/patch.diff ] || cp "$SRC/patch$I.diff" /verif/seeded/$NAME/patch.diff
-    cp "$SRC/patch$I.diff" /verif/seeded/$NAME/patch_pinned.diff
+    [ "$PIN" = bc9989c ] && cp "$SRC/patch$I.diff" /verif/seeded/$NAME/patch_pinned.diff
     cp "$SRC/demo$I.py" /verif/seeded/$NAME/demo.py
-    /venv/bin/python - "$SRC/meta$I.json" "/verif/seeded/$NAME/meta.json" "$T" $RC_WITH $RC_WITHOUT <<'PY'
+    /venv/bin/python - "$SRC/meta$I.json" "/verif/seeded/$NAME/meta.json" "$T" $RC_WITH $RC_WITHOUT "$(git -C /repo rev-parse --short $PIN)" <<'PY'
 import json,sys
-src,dst,t,rw,rwo=sys.argv[1:6]
+src,dst,t,rw,rwo,pin=sys.argv[1:7]
 try: m=json.load(open(src))
 except Exception as e: m={"note":"sub-agent meta unreadable: %r"%e}
-m["confirmed_by_lead"]={"pinned_commit":"bc9989c","test_suite_with_patch":t,
+m["confirmed_by_lead"]={"pinned_commit":pin,"test_suite_with_patch":t,
   "demo_exit_with_patch":int(rw),"demo_exit_without_patch":int(rwo),
   "how":"tools/confirm_seed.sh: scratch worktree of the pinned commit, git apply, full pytest, demo, git checkout, demo"}
 json.dump(m,open(dst,"w"),indent=1)
